@@ -9,6 +9,7 @@ import (
 	"runtime/debug"
 	"sort"
 	"strings"
+	"testing"
 
 	"pgregory.net/rapid"
 )
@@ -125,3 +126,18 @@ func FirstDiff(a, b []byte) string {
 	}
 	return "equal"
 }
+
+// Soft is a vh.Fataler for enumerated sub-checks: a violation marks the test as failed (the message,
+// including its VERIF-VIOLATION marker, is logged) but the enumeration carries on, so that one run
+// reports every distinct root cause instead of only the first one.
+type Soft struct {
+	T      testing.TB
+	Failed bool
+}
+
+func (s *Soft) Fatalf(format string, args ...any) {
+	s.Failed = true
+	s.T.Errorf(format, args...)
+}
+
+func (s *Soft) Helper() {}
